@@ -25,7 +25,7 @@ sh("git apply -R patch.diff", wt)
 rc_wo, o_wo = sh("go test -vet=off -count=1 -run '^TestSeedDemo' ./%s 2>&1 | grep -v 'DEBUG\\|^->' | tail -8" % demodir, wt)
 demo_passes_without = ("ok " in o_wo) and ("FAIL" not in o_wo)
 sh("git apply patch.diff", wt)
-rc_fast, o_fast = sh("go build ./... && go test -vet=off -count=1 ./seat_manager/ ./open_game_manager/ 2>&1 | grep -v 'DEBUG\\|^->' | tail -4", wt)
+rc_fast, o_fast = sh("go build ./... && go test -vet=off -count=1 -skip TestSeedDemo ./seat_manager/ ./open_game_manager/ 2>&1 | grep -v 'DEBUG\\|^->' | tail -4", wt)
 fast_ok = "FAIL" not in o_fast and rc_fast == 0
 meta["ran"].append({"cmd": "go test -run TestSeedDemo ./%s (with change)" % demodir, "fails": demo_fails_with})
 meta["ran"].append({"cmd": "go test -run TestSeedDemo ./%s (without change)" % demodir, "passes": demo_passes_without})
